@@ -262,6 +262,23 @@ pub fn c01(rec: &mut Rec, rng: &mut Rng, thorough: bool) {
     for _ in 0..(if thorough { 3000 } else { 120 }) {
         two_connections_case(rec, rng, "C01");
     }
+    // streams that BEGIN like another protocol (a TLS ClientHello, an SSH banner, the HTTP/2 preface, a PROXY-protocol
+    // line, SOCKS, NULs, a UTF-8 BOM) and then go on as lines, with and without a well-formed request behind: whatever the
+    // connection makes of them — it knows HTTP/1.x only — it makes of them under every read schedule, the first read
+    // being one byte long included
+    {
+        let prefixes: [&[u8]; 12] = [b"\x16\x03\x01\x02\x00\x01\x00\x01\xfc\x03\x03", b"\x16\x03", b"\x16", b"SSH-2.0-OpenSSH_9.6\r\n",
+            b"PRI * HTTP/2.0\r\n\r\nSM\r\n\r\n", b"PROXY TCP4 10.0.0.1 10.0.0.2 1 2\r\n", b"\x05\x01\x00", b"\x00\x00\x00", b"\xef\xbb\xbf",
+            b"\x80", b"\r\n", b"\n"];
+        let tails: [&[u8]; 4] = [b"", b"\r\n", b"\r\n\r\n", b"GET /behind HTTP/1.1\r\n\r\n"];
+        for pre in prefixes {
+            for tail in tails {
+                let mut st = pre.to_vec();
+                st.extend_from_slice(tail);
+                c01_stream_case(rec, rng, &st, 51200, n_sched_for(thorough).min(8), "foreign-protocol-prefix");
+            }
+        }
+    }
     // many SHORT header lines (more than 16, 32, 64, 128 of them inside one 1024-byte read) and many tiny pipelined
     // requests: how many lines or requests a read happens to complete is no business of the result
     for count in [15usize, 16, 17, 31, 32, 33, 63, 64, 65, 66, 100, 127, 128, 129, 200] {
